@@ -161,6 +161,9 @@ func genCase(r *common.Rng, maxOps int) Case {
 		default:
 			id = cur + uint64(r.Range(1, int(2*size+130)))
 		}
+		if r.Chance(1, 25) { // far jumps: block distances around 2^31 / 2^32 / 2^57 (int conversions of blockIndex differences)
+			id = cur + common.Pick(r, []uint64{1 << 37, 1<<37 + 64, 1 << 38, 1<<38 - 64, 1 << 62, 1 << 63, 1<<63 + 64, (1 << 31) * 64 * 3})
+		}
 		op := "add"
 		switch r.Intn(10) {
 		case 0, 1, 2:
@@ -444,7 +447,7 @@ func realMain(o *common.Options, t *testing.T) int {
 		"for sizes {1,2,63,64,65,128,256,1000}+random; plus all add-sequences of depth 4 (quick) / 6 (thorough) over an 8-letter alphabet per size; " +
 		"non-trivial = at least one accepted and one refused id; distinct by (size, op sequence). " +
 		"engine udpsess: packet histories (real packers + crafted, replayed, reordered, bit-flipped, truncated, stale, wrong-type, foreign-session, " +
-		"old/new server-session packets; clock gaps around 30 s and 60 s) against the real server/client unpackers under a fake clock; " +
+		"old/new server-session packets; clock gaps around 30 s and 60 s; timestamps over the whole 64-bit range incl. clock ± k*2^55, 2^62, 2^63) against the real server/client unpackers under a fake clock; " +
 		"non-trivial = at least one delivery and >= 3 distinct result classes; distinct by (side, size, event list)"
 	var err error
 	if o.Replay != "" {
@@ -502,6 +505,11 @@ func realMain(o *common.Options, t *testing.T) int {
 		ru := common.NewRng(o.Seed ^ 0xC04C04)
 		nu := o.Budget(1200, 40000)
 		shrunk := 0
+		for _, c := range tsProbeCases() {
+			if err == nil {
+				err = evalU(t, c, o, rep, true)
+			}
+		}
 		for i := 0; i < nu && err == nil; i++ {
 			before := len(rep.OracleFailures) + len(rep.Divergences)
 			err = evalU(t, genU(ru.Fork(uint64(i)), 36), o, rep, shrunk < 4)
